@@ -39,6 +39,7 @@ CONSTANTS
     SnapshotOnPush,  \* BOOLEAN: see above
     WithLazy,        \* BOOLEAN: async-fn spans (begin at first poll)
     WithCurrent,     \* BOOLEAN: Frame::current(rt.ctxt()) hand-off frames
+    CtxForms,        \* forms in which the runtime's context is used (see FormOpen below)
     Panics,          \* BOOLEAN: real panics in span bodies / polls, caught below everything entered
     Emit
 
@@ -53,6 +54,35 @@ DrawSpan(i) == 2 * i
 None == [some |-> FALSE, tr |-> 0, sp |-> 0, fl |-> 0, pa |-> 0]
 Tp(tr, sp, fl, pa) == [some |-> TRUE, tr |-> tr, sp |-> sp, fl |-> fl, pa |-> pa]
 IsValid(x) == x.some /\ x.tr # 0 /\ x.sp # 0          \* Traceparent::is_valid
+
+(***************************************************************************)
+(* Context forms: "value" (TraceparentCtxt<ThreadLocalCtxt>), "ref" (&C),   *)
+(* "option", "box", "arc", "dyn" (Box<dyn ErasedCtxt + Send + Sync>),       *)
+(* "ambient" (the type-erased runtime of setup_with_sampler(..)             *)
+(* .init_slot(..)).  The statement is form-independent: level A is the same *)
+(* for every form and every form must refine it.  Level B: every wrapper    *)
+(* forwards open_root / open_push / open_disabled unchanged - a rejected    *)
+(* span's open_disabled must reach TraceparentCtxt::open_disabled (flags &  *)
+(* EMPTY), not open_push(props) nor the trait default open_push(Empty).     *)
+(* Every program is replayed through the forms in rotation.                 *)
+(***************************************************************************)
+AllCtxForms == {"value", "ref", "option", "box", "arc", "dyn", "ambient"}
+FormOpen(form, kind) == kind
+ASSUME CtxForms \subseteq AllCtxForms /\ CtxForms # {}
+ASSUME \A form \in CtxForms, kind \in {"push", "root", "disabled"} : FormOpen(form, kind) = kind
+
+(***************************************************************************)
+(* Invalid headers (no trace id or no span id, whatever the flag) are       *)
+(* ignored: a span begun under one is the root of a new trace and the       *)
+(* sampler decides.  Which trace id that new trace gets is not said: the    *)
+(* code keeps the trace id of a sampled trace-id-only header.  Such a       *)
+(* root's trace name is SOFT: it is bound to what is observed first and     *)
+(* must then be consistent, but may coincide with the header's.  The        *)
+(* level-A context of an invalid header's frame is "none" and only          *)
+(* remembers the ignored trace id for that purpose.                         *)
+(***************************************************************************)
+SOFT == 1000
+TrOK(xtr, atr) == atr >= SOFT \/ xtr = atr
 
 \* level-A trace context
 NoCtx == [k |-> "none", tr |-> 0, sp |-> 0]
@@ -134,7 +164,8 @@ BeginA(t, i, d) ==
     LET L == LCtx(t) IN
     [root |-> L.k = "none",
      pa |-> IF L.k = "s" THEN L.sp ELSE 0,
-     a |-> IF L.k = "none" THEN Ctx(IF d THEN "s" ELSE "u", DrawTrace(i), DrawSpan(i))
+     a |-> IF L.k = "none"
+           THEN Ctx(IF d THEN "s" ELSE "u", DrawTrace(i) + (IF L.tr # 0 THEN SOFT ELSE 0), DrawSpan(i))
            ELSE IF L.k = "s" THEN Ctx("s", L.tr, DrawSpan(i))
            ELSE L]
 
@@ -202,7 +233,7 @@ Begin(t, d) ==
           /\ tp' = [tp EXCEPT ![t] = IF nf.active THEN nf.slot ELSE tp[t]]
           /\ em' = <<>>
           /\ UNCHANGED <<tk, lazy>>
-          /\ Log([op |-> "begin", t |-> t, i |-> i, f |-> f, d |-> d, root |-> BeginA(t, i, d).root], <<>>)
+          /\ Log([op |-> "begin", t |-> t, i |-> i, f |-> f, d |-> d, root |-> BeginA(t, i, d).root, atr |-> BeginA(t, i, d).a.tr], <<>>)
 
 \* new_span! / SpanGuard::new without entering
 New(t, d) ==
@@ -215,7 +246,7 @@ New(t, d) ==
           /\ fr' = [fr EXCEPT ![f] = SpanFrame(t, i, d)]
           /\ em' = <<>>
           /\ UNCHANGED <<tp, stk, tk, lazy>>
-          /\ Log([op |-> "new", t |-> t, i |-> i, f |-> f, d |-> d, root |-> BeginA(t, i, d).root], <<>>)
+          /\ Log([op |-> "new", t |-> t, i |-> i, f |-> f, d |-> d, root |-> BeginA(t, i, d).root, atr |-> BeginA(t, i, d).a.tr], <<>>)
 
 \* Quantifier restriction: a frame that carries no trace (Frame::current taken outside any
 \* trace, an invalid header) is only entered outside any trace.  Whether such a frame hides
@@ -290,7 +321,7 @@ PollLazy(t, k, d) ==
           /\ lazy' = [lazy EXCEPT ![k] = FALSE]
           /\ em' = <<>>
           /\ Log([op |-> "poll", t |-> t, k |-> k, i |-> i, f |-> f, d |-> d, first |-> TRUE,
-                  root |-> BeginA(t, i, d).root], <<>>)
+                  root |-> BeginA(t, i, d).root, atr |-> BeginA(t, i, d).a.tr], <<>>)
 
 Poll(t, k) ==
     /\ tk[k].st = "idle" /\ ~lazy[k]
@@ -385,7 +416,7 @@ Header(t, h) ==
                              IF tp[t].some /\ tp[t].tr # 0 /\ tp[t].tr = h.tr THEN tp[t].sp ELSE 0),
                  active |-> TRUE, i |-> 0,
                  a |-> IF h.tr # 0 /\ h.sp # 0 THEN Ctx(IF h.fl = 1 THEN "s" ELSE "u", h.tr, h.sp)
-                       ELSE NoCtx]]
+                       ELSE Ctx("none", h.tr, 0)]]      \* ignored; the trace id is only remembered
     /\ em' = <<>>
     /\ UNCHANGED <<tp, stk, tk, lazy, sp, slog>>
     /\ Log([op |-> "header", t |-> t, f |-> NextFrame, h |-> h], <<>>)
@@ -437,7 +468,7 @@ DecisionGoverns == \A i \in Started : sp[i].en = (sp[i].a.k = "s")
 
 \* B agrees with A about what a frame carries / a thread sees
 Matches(x, a) ==
-    CASE a.k = "s" -> x.some /\ x.tr = a.tr /\ x.sp = a.sp /\ x.fl = 1
+    CASE a.k = "s" -> x.some /\ TrOK(x.tr, a.tr) /\ x.sp = a.sp /\ x.fl = 1
       [] a.k = "u" -> x.some /\ x.fl = 0
       [] OTHER -> ~IsValid(x)
 
@@ -453,7 +484,7 @@ SampledConsistent ==
     /\ \A t \in Threads : LCtx(t).k = "s" => Matches(tp[t], LCtx(t))
     /\ \A n \in 1..Len(em) : em[n].a.k = "s" =>
           /\ em[n].sent
-          /\ em[n].ids[1] = em[n].a.tr /\ em[n].ids[2] = em[n].a.sp
+          /\ TrOK(em[n].ids[1], em[n].a.tr) /\ em[n].ids[2] = em[n].a.sp
           /\ (em[n].kind = "span" => em[n].ids[3] = sp[em[n].i].pa)
 
 \* outside any trace there is no valid traceparent (so the next span is a root)
